@@ -645,9 +645,19 @@ def controls(chk, w, inv, RANGE):
 
     # control 1: drop the range check in from_u64 (branch always taken to the Ok arm)
     def m1(b):
+        def constructs(bi):
+            return any(st.kind == "=" and st.rv.kind == "agg" and st.rv.agg[0] == "adt" and
+                       st.rv.agg[1].endswith("::Zatoshis") for x in ({bi} | b.reachable(bi))
+                       for st in b.blocks[x].stmts)
         for blk in b.blocks:
             if blk.term.kind == "switch":
-                blk.term.arms = [(v, blk.term.otherwise) for v, _ in blk.term.arms]
+                tgts = [tb for _v, tb in blk.term.arms] + [blk.term.otherwise]
+                good = [tb for tb in tgts if tb is not None and constructs(tb)]
+                bad_ = [tb for tb in tgts if tb is not None and not constructs(tb)]
+                if good and bad_:
+                    # whichever way the test is written, every outcome now leads to the construction
+                    blk.term.arms = [(v, good[0]) for v, _ in blk.term.arms]
+                    blk.term.otherwise = good[0]
     # control 2: ZatBalance + ZatBalance constructs without range check -> out of range
     def m2(b):
         for blk in b.blocks:
@@ -677,14 +687,26 @@ def controls(chk, w, inv, RANGE):
         pass
     f = w.fn("zcash_protocol::value::Zatoshis::from_u64")
     saved = f._promoted
+    patched = []
     try:
-        pb = zf.Body(f.crate, copy.deepcopy(f.raw["promoted"][0]), f, 0)
-        for blk in pb.blocks:
-            if blk.term.kind == "call":
-                for o in blk.term.args:
-                    if o.kind == "const" and o.info.get("v") == SPEC_MAX_MONEY:
-                        o.info["v"] = SPEC_MAX_MONEY + 1
-        f._promoted = [pb]
+        if f.raw.get("promoted"):
+            # the accepted range is a promoted constant `0..=MAX_MONEY`
+            pb = zf.Body(f.crate, copy.deepcopy(f.raw["promoted"][0]), f, 0)
+            for blk in pb.blocks:
+                if blk.term.kind == "call":
+                    for o in blk.term.args:
+                        if o.kind == "const" and o.info.get("v") == SPEC_MAX_MONEY:
+                            o.info["v"] = SPEC_MAX_MONEY + 1
+            f._promoted = [pb]
+        else:
+            # ... or a comparison with the constant in the body itself (`amount > MAX_MONEY`)
+            for blk in f.body.blocks:
+                for st in blk.stmts:
+                    if st.kind == "=" and st.rv.kind == "bin":
+                        for o in st.rv.ops:
+                            if o.kind == "const" and o.info.get("v") == SPEC_MAX_MONEY:
+                                o.info["v"] = SPEC_MAX_MONEY + 1
+                                patched.append(o)
         it = A.Interp(w, lambda g: g.span.file.endswith(MOD_FILE), inv)
         it.analyse(f)
         c4 = False
@@ -696,6 +718,8 @@ def controls(chk, w, inv, RANGE):
                     c4 = True
     finally:
         f._promoted = saved
+        for o in patched:
+            o.info["v"] = SPEC_MAX_MONEY
     for name, okc in (("range check removed from from_u64", c1),
                       ("u64->i64 cast without invariant", c2),
                       ("i64 addition without invariant", c3),
